@@ -143,3 +143,44 @@ func closeDeadlockExperiment(d time.Duration) (int, int) {
 	}
 	return trials, hits
 }
+
+
+// doubleReleaseRaceExperiment: "It is safe to call release multiple times" (Handle.Release) — also from two goroutines at
+// once: exactly one of them may drop the reference.  Two goroutines release the SAME handle while a second handle to the
+// same node is outstanding: the value must not be finalised (and the node must stay) until that second handle is released,
+// and it must be finalised exactly once afterwards.  Returns (trials, reproductions).
+func doubleReleaseRaceExperiment(d time.Duration) (int, int) {
+	deadline := time.Now().Add(d)
+	trials, hits := 0, 0
+	for time.Now().Before(deadline) {
+		c := cache.NewCache(nil)
+		for k := 0; k < 2000; k++ {
+			trials++
+			v := &rval{}
+			key := uint64(k)
+			h1 := c.Get(0, key, func() (int, cache.Value) { return 1, v })
+			h2 := c.Get(0, key, nil)
+			if h1 == nil || h2 == nil {
+				continue
+			}
+			var wg sync.WaitGroup
+			start := make(chan struct{})
+			wg.Add(2)
+			for g := 0; g < 2; g++ {
+				go func() { defer wg.Done(); <-start; h1.Release() }()
+			}
+			close(start)
+			wg.Wait()
+			bad := atomic.LoadInt32(&v.fin) != 0 || h2.Value() == nil
+			h2.Release()
+			if !bad && atomic.LoadInt32(&v.fin) != 1 {
+				bad = true
+			}
+			if bad {
+				hits++
+			}
+		}
+		c.Close(true)
+	}
+	return trials, hits
+}
